@@ -2133,7 +2133,7 @@ soy.$$truncate = function(str, maxLen, doAddEllipsis) {
  * @private
  */
 soy.$$isHighSurrogate_ = function(ch) {
-  return 0xD800 <= ch && ch <= 0xDBFF;
+  return 0xD800 <= ch.charCodeAt(0) && ch.charCodeAt(0) <= 0xDBFF;
 };
 
 /**
@@ -2143,7 +2143,7 @@ soy.$$isHighSurrogate_ = function(ch) {
  * @private
  */
 soy.$$isLowSurrogate_ = function(ch) {
-  return 0xDC00 <= ch && ch <= 0xDFFF;
+  return 0xDC00 <= ch.charCodeAt(0) && ch.charCodeAt(0) <= 0xDFFF;
 };
 
 
